@@ -40,7 +40,7 @@ struct cfg {
 };
 
 /* ---- shared counters (children are forked from main) ---- */
-enum { SH_CTX_CHECKED, SH_REQ_VERIFIED, SH_RESP_VERIFIED, SH_TAMPERED, SH_TAMPER_REF_ACCEPTS, SH_COMPLETED, SH_NACKED, SH_ERRORED, SH_SILENT_NON,
+enum { SH_CTX_CHECKED, SH_REQ_VERIFIED, SH_RESP_VERIFIED, SH_TAMPERED, SH_TAMPER_REF_ACCEPTS, SH_COMPLETED, SH_NACKED, SH_ERRORED, SH_SILENT_NON, SH_SILENT_CON_DUP,
        SH_PLAIN_TO_HANDLER, SH_SRV_TWICE, SH_COMPLETED_AFTER_TAMPER, SH_N };
 static volatile uint64_t *SH;
 static void
@@ -85,7 +85,7 @@ static char tamper_what[120];
 static int srv_calls, cli_calls, cli_ok205, cli_err, cli_plain, nacks, foreign_tok, osc_events;
 static int plain_errors;
 static char plain_error_text[80];
-static int faults_taken;
+static int faults_taken, drops_taken, dups_taken;
 static int submitted;
 
 /* distinct contexts already compared with the reference in this execution */
@@ -343,7 +343,7 @@ on_deliver(const ns_dgram_t *d) {
 
 /* ---- Oracle 2: every security context either endpoint holds equals the independent derivation ---- */
 static void
-check_chain(int side, const char *when) {
+check_chain(int side, const char *when, int judge_idctx) {
   coap_context_t *ctx = side ? sc : cc;
   if (!ctx)
     return;
@@ -422,7 +422,7 @@ check_chain(int side, const char *when) {
               o->master_salt ? hx(o->master_salt->s, o->master_salt->length) : "none", hx(got, gl), hx(want, wl));
     }
     /* which ID Contexts may exist at all: the configured one and those under which the reference verified a datagram */
-    if (!tamper_done) {
+    if (!tamper_done && judge_idctx) {
       int ok = 0;
       if (!idc || !idcl)
         ok = 1;
@@ -567,6 +567,29 @@ osc_positions(const uint8_t *b, size_t n, int *pos, int max, int *nopt) {
   return np;
 }
 
+/* which field of the OSCORE option value (RFC 8613 6.1) byte k belongs to */
+static const char *
+optval_field(const uint8_t *v, size_t n, size_t k) {
+  if (k == 0)
+    return "flags";
+  size_t piv = v[0] & 7, o = 1;
+  if (k < o + piv)
+    return "partial-iv";
+  o += piv;
+  if (v[0] & 0x10) {
+    if (k == o)
+      return "kidctx-length";
+    size_t s = o < n ? v[o] : 0;
+    o++;
+    if (k == o && s)
+      return "kidctx-cbor-head"; /* Appendix B.2: kid context = bstr .cbor (ID1 / R2 / R2||R3) */
+    if (k < o + s)
+      return "kidctx";
+    o += s;
+  }
+  return "kid";
+}
+
 static void
 inject_tampered(const ns_dgram_t *d, int p, int bit, int is_opt) {
   uint8_t *copy = malloc(d->len);
@@ -600,8 +623,13 @@ inject_tampered(const ns_dgram_t *d, int p, int bit, int is_opt) {
   cur = NULL;
   cur_unknown = 0;
   free(copy);
-  const char *region = is_opt ? "oscore-option" : "ciphertext";
-  const char *kind = !g ? "?" : g->is_req ? (g->has_kidctx ? "request+kidctx" : "request") : (g->has_kidctx ? "response+kidctx" : "response");
+  char region[60] = "ciphertext";
+  if (is_opt) {
+    struct w_msg m;
+    const struct w_opt *o = w_parse(d->data, d->len, &m) ? w_find(&m, 9) : NULL;
+    snprintf(region, sizeof region, "oscore-option:%s", o ? optval_field(o->val, o->len, (size_t)(d->data + p - o->val)) : "?");
+  }
+  const char *kind = !g ? "?" : g->is_req ? "request" : "response";
   char sig[140];
   if (srv_calls != s0 || cli_calls != c0) {
     snprintf(sig, sizeof sig, "b2:tamper-accepted:%s:%s:handler-called", region, kind);
@@ -656,11 +684,13 @@ step(void) {
   case EV_DUP:
     vx_observe("   dup dgram#%d", ns_inflight(ev[c].idx)->id);
     faults_taken++;
+    dups_taken++;
     ns_duplicate(ev[c].idx);
     break;
   case EV_DROP:
     vx_observe("   drop dgram#%d", ns_inflight(ev[c].idx)->id);
     faults_taken++;
+    drops_taken++;
     ns_drop(ev[c].idx);
     break;
   case EV_TIMER:
@@ -695,8 +725,8 @@ step(void) {
   cur_unknown = 0;
   if (c)
     vx_nontrivial();
-  check_chain(0, "after an event");
-  check_chain(1, "after an event");
+  check_chain(0, "after an event", 1);
+  check_chain(1, "after an event", 1);
   return 1;
 }
 
@@ -707,7 +737,7 @@ run(void *arg) {
   nW = 0;
   cur = NULL;
   cur_unknown = in_tamper = tamper_done = tamper_srv_calls = tamper_cli_calls = tamper_protected_replies = 0;
-  srv_calls = cli_calls = cli_ok205 = cli_err = cli_plain = nacks = foreign_tok = osc_events = plain_errors = faults_taken = submitted = 0;
+  srv_calls = cli_calls = cli_ok205 = cli_err = cli_plain = nacks = foreign_tok = osc_events = plain_errors = faults_taken = drops_taken = dups_taken = submitted = 0;
   nseen_ctx = 0;
   plain_error_text[0] = 0;
   static const uint8_t id1[] = {0x01}, id2[] = {0x02};
@@ -748,8 +778,9 @@ run(void *arg) {
       failed_setup = 1;
     }
   }
-  check_chain(0, "after configuration");
-  check_chain(1, "after configuration");
+  /* (the client's first ID Context, ID1, is on the wire only after the first send: its membership is judged from then on) */
+  check_chain(0, "after configuration", 0);
+  check_chain(1, "after configuration", 1);
   if (!failed_setup) {
     coap_pdu_t *pdu = coap_new_pdu(C->con ? COAP_MESSAGE_CON : COAP_MESSAGE_NON, C->payload ? COAP_REQUEST_CODE_PUT : COAP_REQUEST_CODE_GET, cs);
     coap_add_token(pdu, sizeof APPTOK, APPTOK);
@@ -759,7 +790,8 @@ run(void *arg) {
     coap_mid_t m = coap_send(cs, pdu);
     submitted = m != COAP_INVALID_MID;
     vx_observe("t=%llu SUBMIT -> %s", (unsigned long long)ns_now(), submitted ? "sent" : "refused");
-    check_chain(0, "after the first send");
+    nseen_ctx = 0;
+    check_chain(0, "after the first send", 1);
     int steps = 0;
     while (steps++ < 600 && step())
       ;
@@ -798,8 +830,10 @@ run(void *arg) {
     } else if (faults_taken && submitted) {
       /* Oracle 3: completes or ends explicitly (Confirmable requests) */
       if (cli_ok205 + cli_err + nacks == 0) {
-        if (C->con) {
-          snprintf(sig, sizeof sig, "b2:abandoned-silently:con:b12=%d", C->b12);
+        if (C->con && dups_taken)
+          sh_add(SH_SILENT_CON_DUP, 1); /* see the note at main(): not a claim of C14 */
+        else if (C->con) {
+          snprintf(sig, sizeof sig, "b2:abandoned-silently:con:after-loss:b12=%d", C->b12);
           vx_fail(sig, "%s: after a lost / duplicated datagram the Confirmable exchange ended without response and without NACK at the client "
                        "(resource handler calls: %d)",
                   C->name, srv_calls);
@@ -915,6 +949,7 @@ main(int argc, char **argv) {
     vx_ev_int("b2.exchanges_ended_in_nack", (long long)SH[SH_NACKED]);
     vx_ev_int("b2.exchanges_ended_in_error_response", (long long)SH[SH_ERRORED]);
     vx_ev_int("b2.non_exchanges_silent_after_loss", (long long)SH[SH_SILENT_NON]);
+    vx_ev_int("b2.con_exchanges_silent_after_duplicate", (long long)SH[SH_SILENT_CON_DUP]);
     vx_ev_int("b2.plain_responses_to_handler_under_faults", (long long)SH[SH_PLAIN_TO_HANDLER]);
     vx_ev_int("b2.resource_handler_twice_under_faults", (long long)SH[SH_SRV_TWICE]);
   }
